@@ -303,7 +303,8 @@ Section Retarget.
       change (map (fun x => reindex rho (rename_node i n x)) args) with (map retarget args).
       apply andb_true_iff in Hi as [Hi Hi4]. apply andb_true_iff in Hi as [Hi Hi3]. apply andb_true_iff in Hi as [Hi1 Hi2].
       apply andb_true_iff in Hg as [Hg1 Hg2]. apply andb_true_iff in Hn as [Hn1 Hn2].
-      Show. rewrite is_lambdadef_retarget, Hi1, args_shape_retarget, Hi3, (IHe false Hi2 Hg1 Hn1). cbn [andb].
+      change (reindex rho (rename_node i n e)) with (retarget e).
+      rewrite is_lambdadef_retarget, Hi1, args_shape_retarget, Hi3, (IHe false Hi2 Hg1 Hn1). cbn [andb].
       eapply forallb_map_pass3; [|exact Hi4|exact Hg2|exact Hn2].
       eapply Forall_impl; [|exact H]. cbn beta. intros a Ha. apply Ha.
     - (* ENamedFun *)
@@ -331,3 +332,245 @@ Section Retarget.
     - auto.
   Qed.
 End Retarget.
+
+(* ---- the pass keeps every shape the printer and the round-trip theorem look at -------------------- *)
+Ltac foldT :=
+  repeat match goal with
+  | |- context [reindex ?rho (rename_node ?i ?n ?x)] =>
+      change (reindex rho (rename_node i n x)) with (retarget i n rho x)
+  end.
+
+Section Shapes.
+  Variables (i : Z) (n : text) (rho : Z -> Z).
+  Notation T := (retarget i n rho).
+
+  Lemma hp_cmp_r c : cmp_right_parens (T c) = cmp_right_parens c. Proof. destruct c; reflexivity. Qed.
+  Lemma hp_concat_l c : concat_left_parens (T c) = concat_left_parens c. Proof. destruct c; reflexivity. Qed.
+  Lemma hp_concat_r c : concat_right_parens (T c) = concat_right_parens c. Proof. destruct c; reflexivity. Qed.
+  Lemma hp_sum_l c : sum_left_parens (T c) = sum_left_parens c. Proof. destruct c; reflexivity. Qed.
+  Lemma hp_sum_r op c : sum_right_parens op (T c) = sum_right_parens op c. Proof. destruct c; reflexivity. Qed.
+  Lemma hp_prod_l c : prod_left_parens (T c) = prod_left_parens c. Proof. destruct c; reflexivity. Qed.
+  Lemma hp_prod_r c : prod_right_parens (T c) = prod_right_parens c. Proof. destruct c; reflexivity. Qed.
+  Lemma hp_pow_l c : pow_left_parens (T c) = pow_left_parens c. Proof. destruct c; reflexivity. Qed.
+  Lemma hp_pow_r c : pow_right_parens (T c) = pow_right_parens c. Proof. destruct c; reflexivity. Qed.
+  Lemma hp_neg c : neg_parens (T c) = neg_parens c. Proof. destruct c; reflexivity. Qed.
+  Lemma hp_pct c : pct_parens (T c) = pct_parens c. Proof. destruct c; reflexivity. Qed.
+  Lemma hp_range_l c : range_left_parens (T c) = range_left_parens c. Proof. destruct c; reflexivity. Qed.
+  Lemma hp_range_r x c : range_right_parens x (T c) = range_right_parens x c. Proof. destruct x; destruct c; reflexivity. Qed.
+  Lemma hp_at c : at_parens (T c) = at_parens c. Proof. destruct c; reflexivity. Qed.
+  Lemma hp_spill c : spill_parens (T c) = spill_parens c. Proof. destruct c; reflexivity. Qed.
+  Lemma hp_rank x c : rank_x x (T c) = rank_x x c. Proof. destruct x; destruct c; reflexivity. Qed.
+  Lemma hp_never c : never (T c) = never c. Proof. reflexivity. Qed.
+
+  Lemma bad_child_retarget xl e : bad_child xl (T e) = bad_child xl e.
+  Proof.
+    destruct e; try reflexivity; unfold retarget; cbn [rename_node reindex]; foldT;
+      unfold bad_child, bad_child_with, stringify_policy;
+      cbn [pol_cmp_l pol_cmp_r pol_concat_l pol_concat_r pol_sum_l pol_sum_r pol_prod_l pol_prod_r pol_pow_l
+           pol_pow_r pol_neg pol_pct pol_range_l pol_range_r pol_at pol_spill];
+      rewrite ?hp_cmp_r, ?hp_concat_l, ?hp_concat_r, ?hp_sum_l, ?hp_sum_r, ?hp_prod_l, ?hp_prod_r, ?hp_pow_l,
+        ?hp_pow_r, ?hp_neg, ?hp_pct, ?hp_range_l, ?hp_range_r, ?hp_at, ?hp_spill, ?hp_rank; reflexivity.
+  Qed.
+
+  Lemma forallb_map_eq (P : ast -> bool) (f : ast -> ast) l :
+    Forall (fun x => P (f x) = P x) l -> forallb P (map f l) = forallb P l.
+  Proof. induction 1 as [|x l Hx _ IH]; cbn [forallb map]; [reflexivity|]. rewrite Hx, IH. reflexivity. Qed.
+
+  Lemma no_bad_retarget xl e : no_bad xl (T e) = no_bad xl e.
+  Proof.
+    unfold no_bad.
+    induction e using ast_rect'; try reflexivity.
+    all: unfold retarget; cbn [rename_node reindex]; foldT; rewrite ?map_map;
+      try change (map (fun x => reindex rho (rename_node i n x)) args) with (map T args);
+      cbn [no_bad_with].
+    all: repeat match goal with
+      | |- context [bad_child_with stringify_policy ?x (?C (T ?a) (T ?b))] =>
+          change (bad_child_with stringify_policy x (C (T a) (T b))) with (bad_child x (T (C a b)))
+      | |- context [bad_child_with stringify_policy ?x (?C ?o (T ?a) (T ?b))] =>
+          change (bad_child_with stringify_policy x (C o (T a) (T b))) with (bad_child x (T (C o a b)))
+      | |- context [bad_child_with stringify_policy ?x (?C (T ?a))] =>
+          change (bad_child_with stringify_policy x (C (T a))) with (bad_child x (T (C a)))
+      | |- context [bad_child_with stringify_policy ?x (?C ?o (T ?a))] =>
+          change (bad_child_with stringify_policy x (C o (T a))) with (bad_child x (T (C o a)))
+      end;
+      rewrite ?bad_child_retarget; unfold bad_child;
+      rewrite ?IHe, ?IHe1, ?IHe2; try reflexivity.
+    all: try (rewrite (forallb_map_eq _ _ _ H); reflexivity).
+  Qed.
+End Shapes.
+
+Section ShapesR.
+  Variable rho : Z -> Z.
+  Notation R := (reindex rho).
+  Lemma hr_cmp_r c : cmp_right_parens (R c) = cmp_right_parens c. Proof. destruct c; reflexivity. Qed.
+  Lemma hr_concat_l c : concat_left_parens (R c) = concat_left_parens c. Proof. destruct c; reflexivity. Qed.
+  Lemma hr_concat_r c : concat_right_parens (R c) = concat_right_parens c. Proof. destruct c; reflexivity. Qed.
+  Lemma hr_sum_l c : sum_left_parens (R c) = sum_left_parens c. Proof. destruct c; reflexivity. Qed.
+  Lemma hr_sum_r op c : sum_right_parens op (R c) = sum_right_parens op c. Proof. destruct c; reflexivity. Qed.
+  Lemma hr_prod_l c : prod_left_parens (R c) = prod_left_parens c. Proof. destruct c; reflexivity. Qed.
+  Lemma hr_prod_r c : prod_right_parens (R c) = prod_right_parens c. Proof. destruct c; reflexivity. Qed.
+  Lemma hr_pow_l c : pow_left_parens (R c) = pow_left_parens c. Proof. destruct c; reflexivity. Qed.
+  Lemma hr_pow_r c : pow_right_parens (R c) = pow_right_parens c. Proof. destruct c; reflexivity. Qed.
+  Lemma hr_neg c : neg_parens (R c) = neg_parens c. Proof. destruct c; reflexivity. Qed.
+  Lemma hr_pct c : pct_parens (R c) = pct_parens c. Proof. destruct c; reflexivity. Qed.
+  Lemma hr_range_l c : range_left_parens (R c) = range_left_parens c. Proof. destruct c; reflexivity. Qed.
+  Lemma hr_range_r x c : range_right_parens x (R c) = range_right_parens x c. Proof. destruct x; destruct c; reflexivity. Qed.
+  Lemma hr_at c : at_parens (R c) = at_parens c. Proof. destruct c; reflexivity. Qed.
+  Lemma hr_spill c : spill_parens (R c) = spill_parens c. Proof. destruct c; reflexivity. Qed.
+
+  Lemma map_reindex_eq {B} (f : ast -> B) l :
+    Forall (fun x => f (R x) = f x) l -> map f (map R l) = map f l.
+  Proof. induction 1 as [|x l Hx _ IH]; cbn [map]; [reflexivity|]. rewrite Hx, IH. reflexivity. Qed.
+
+  (* the printer never looks at the recorded sheet index *)
+  Lemma print_reindex m nm e : print m nm (R e) = print m nm e.
+  Proof.
+    unfold print.
+    induction e using ast_rect'; cbn [reindex gprint]; try reflexivity;
+      unfold stringify_policy;
+      cbn [pol_cmp_l pol_cmp_r pol_concat_l pol_concat_r pol_sum_l pol_sum_r pol_prod_l pol_prod_r pol_pow_l
+           pol_pow_r pol_neg pol_pct pol_range_l pol_range_r pol_at pol_spill];
+      fold stringify_policy;
+      rewrite ?hr_cmp_r, ?hr_concat_l, ?hr_concat_r, ?hr_sum_l, ?hr_sum_r, ?hr_prod_l, ?hr_prod_r, ?hr_pow_l,
+        ?hr_pow_r, ?hr_neg, ?hr_pct, ?hr_range_l, ?hr_range_r, ?hr_at, ?hr_spill;
+      rewrite ?IHe, ?IHe1, ?IHe2; try reflexivity.
+    - rewrite (map_reindex_eq _ _ H). reflexivity.
+    - rewrite (map_reindex_eq _ _ H). destruct e; try reflexivity; cbn [reindex gprint] in *; rewrite ?IHe; reflexivity.
+    - rewrite (map_reindex_eq _ _ H). reflexivity.
+  Qed.
+End ShapesR.
+
+Lemma lower_stable_retarget i n rho nm e : lower_stable nm (retarget i n rho e) = lower_stable nm e.
+Proof.
+  induction e using ast_rect'; try reflexivity;
+    unfold retarget; cbn [rename_node reindex]; foldT; rewrite ?map_map;
+    try change (map (fun x => reindex rho (rename_node i n x)) args) with (map (retarget i n rho) args);
+    cbn [lower_stable]; rewrite ?IHe, ?IHe1, ?IHe2; try reflexivity.
+  all: rewrite (forallb_map_eq _ _ _ H); reflexivity.
+Qed.
+
+Lemma reindex_id e : reindex (fun k => k) e = e.
+Proof.
+  induction e using ast_rect'; cbn [reindex]; rewrite ?IHe, ?IHe1, ?IHe2; try reflexivity.
+  - destruct i; reflexivity.
+  - destruct i; reflexivity.
+  - f_equal. induction H as [|x l Hx _ IH]; cbn [map]; [reflexivity|]. rewrite Hx, IH. reflexivity.
+  - f_equal. induction H as [|x l Hx _ IH]; cbn [map]; [reflexivity|]. rewrite Hx, IH. reflexivity.
+  - f_equal. induction H as [|x l Hx _ IH]; cbn [map]; [reflexivity|]. rewrite Hx, IH. reflexivity.
+Qed.
+
+(* ---- index_of on the renamed sheet list ------------------------------------------------------------ *)
+Lemma text_eqb_neq a b : a <> b -> text_eqb a b = false.
+Proof. intro H. destruct (text_eqb a b) eqn:E; [|reflexivity]. apply text_eqb_eq in E. contradiction. Qed.
+
+Lemma index_of_some_nth name l : forall a j, index_of name l a = Some j ->
+  exists t, j = a + Z.of_nat t /\ nth_error l t = Some name.
+Proof.
+  induction l as [|x r IH]; intros a j; cbn [index_of]; [discriminate|].
+  destruct (text_eqb x name) eqn:E.
+  - intro H. inversion H; subst. apply text_eqb_eq in E. subst. exists 0%nat. split; [lia|reflexivity].
+  - intro H. destruct (IH _ _ H) as (t & Ht & Hn). exists (S t). split; [lia|exact Hn].
+Qed.
+
+Section ReplaceIdx.
+  Variable n : text.
+
+  Lemma idx_replace_other l : forall k a name j,
+    index_of name l a = Some j -> j <> a + Z.of_nat k -> name <> n ->
+    index_of name (replace_nth k n l) a = Some j.
+  Proof.
+    induction l as [|x r IH]; intros k a name j; cbn [index_of replace_nth]; [discriminate|].
+    intros H Hj Hn. destruct k as [|k']; cbn [index_of replace_nth].
+    - rewrite (text_eqb_neq n name) by congruence.
+      destruct (text_eqb x name); [inversion H; subst; lia|exact H].
+    - destruct (text_eqb x name); [exact H|]. apply IH; [exact H|lia|exact Hn].
+  Qed.
+
+  Lemma idx_replace_self l : forall k a, (k < length l)%nat ->
+    (forall t x, nth_error l t = Some x -> t <> k -> x <> n) ->
+    index_of n (replace_nth k n l) a = Some (a + Z.of_nat k).
+  Proof.
+    induction l as [|x r IH]; intros k a Hk Hf; cbn [length] in Hk; [lia|].
+    destruct k as [|k']; cbn [replace_nth index_of].
+    - rewrite text_eqb_refl. f_equal. lia.
+    - rewrite (text_eqb_neq x n) by (apply (Hf 0%nat); [reflexivity|lia]).
+      rewrite IH; [f_equal; lia|lia|]. intros t y Ht Hne. apply (Hf (S t)); [exact Ht|lia].
+  Qed.
+
+  Lemma idx_replace_none l : forall k a g, index_of g l a = None -> g <> n ->
+    index_of g (replace_nth k n l) a = None.
+  Proof.
+    induction l as [|x r IH]; intros k a g; cbn [index_of replace_nth]; [destruct k; reflexivity|].
+    destruct (text_eqb x g) eqn:E; [discriminate|]. intros H Hn.
+    destruct k as [|k']; cbn [index_of replace_nth].
+    - rewrite (text_eqb_neq n g) by congruence. exact H.
+    - rewrite E. apply IH; assumption.
+  Qed.
+End ReplaceIdx.
+
+Lemma idx_nodup_nth l : forall k a, NoDup l -> (k < length l)%nat ->
+  index_of (nth k l []) l a = Some (a + Z.of_nat k).
+Proof.
+  induction l as [|x r IH]; intros k a Hnd Hk; cbn [length] in Hk; [lia|].
+  inversion Hnd as [|? ? Hnot Hnd']; subst.
+  destruct k as [|k']; cbn [nth index_of].
+  - rewrite text_eqb_refl. f_equal. lia.
+  - rewrite text_eqb_neq.
+    + rewrite IH; [f_equal; lia|exact Hnd'|lia].
+    + intro Heq. apply Hnot. rewrite Heq. apply nth_In. lia.
+Qed.
+
+(* ---- C17: the renamed formula, printed in the stored form, parses back to the renamed tree ---------- *)
+Theorem rename_roundtrip nm env (k : nat) (n : text) (e : ast) :
+  (k < length (pe_sheets env))%nat -> NoDup (pe_sheets env) -> In (pe_ctx_sheet env) (pe_sheets env) ->
+  (* the new name is not the name of another sheet *)
+  (forall t x, nth_error (pe_sheets env) t = Some x -> t <> k -> x <> n) ->
+  image m_stored nm env e = true -> no_bad false e = true -> lower_stable nm e = true ->
+  no_ghost_range e = true -> no_ghost_named n e = true ->
+  let e' := rename_node (Z.of_nat k) n e in
+  image m_stored nm (env_renamed k n env) e' = true /\
+  parse m_stored nm (env_renamed k n env) (print m_stored nm e') = Some (e', []).
+Proof.
+  intros Hk Hnd Hctx Hfresh Hi Hb Hl Hg Hn e'.
+  assert (He' : e' = retarget (Z.of_nat k) n (fun z => z) e) by (unfold retarget; rewrite reindex_id; reflexivity).
+  assert (HA : sheet_index (env_renamed k n env) (Some n) = Some ((fun z : Z => z) (Z.of_nat k))).
+  { unfold sheet_index, env_renamed. cbn [pe_sheets]. rewrite idx_replace_self; [f_equal; lia|exact Hk|exact Hfresh]. }
+  assert (HB : forall name j, sheet_index env (Some name) = Some j -> j <> Z.of_nat k ->
+                              sheet_index (env_renamed k n env) (Some name) = Some ((fun z : Z => z) j)).
+  { intros name j Hj Hne. unfold sheet_index in *. cbn [pe_sheets env_renamed].
+    destruct (index_of_some_nth _ _ _ _ Hj) as (t & Ht & Hnth).
+    apply idx_replace_other; [exact Hj|lia|]. apply (Hfresh t); [exact Hnth|]. intro; subst. lia. }
+  assert (HC : sheet_index (env_renamed k n env) None = reindex_field (fun z : Z => z) (sheet_index env None)).
+  { unfold sheet_index. cbn [pe_sheets pe_ctx_sheet env_renamed].
+    destruct (text_eqb (pe_ctx_sheet env) (nth k (pe_sheets env) [])) eqn:E.
+    + apply text_eqb_eq in E. rewrite E. rewrite idx_nodup_nth by assumption.
+      rewrite idx_replace_self; [reflexivity|exact Hk|exact Hfresh].
+    + destruct (index_of (pe_ctx_sheet env) (pe_sheets env) 0) as [j|] eqn:Ej.
+      * cbn [reindex_field].
+        destruct (index_of_some_nth _ _ _ _ Ej) as (t & Ht & Hnth).
+        assert (t <> k).
+        { intro; subst t. apply nth_error_nth with (d := []) in Hnth. rewrite Hnth in E.
+          rewrite text_eqb_refl in E. discriminate. }
+        apply idx_replace_other; [exact Ej|lia|]. apply (Hfresh t); assumption.
+      * exfalso. clear - Hctx Ej. revert Ej. generalize 0.
+        induction (pe_sheets env) as [|x r IH]; [destruct Hctx|]. intros a. cbn [index_of].
+        destruct (text_eqb x (pe_ctx_sheet env)) eqn:Ex; [discriminate|].
+        destruct Hctx as [->|Hin]; [rewrite text_eqb_refl in Ex; discriminate|]. apply IH. exact Hin. }
+  assert (HD : forall g, sheet_index env (Some g) = None -> g <> n -> sheet_index (env_renamed k n env) (Some g) = None).
+  { intros g Hgn Hne. unfold sheet_index in *. cbn [pe_sheets env_renamed]. apply idx_replace_none; assumption. }
+  assert (Hi' : image m_stored nm (env_renamed k n env) e' = true).
+  { rewrite He'. unfold image.
+    apply (image_retarget m_stored nm env (env_renamed k n env) (Z.of_nat k) n (fun z => z) HA HB HC HD);
+      [intros name ci _; reflexivity|reflexivity|exact Hi|exact Hg|exact Hn]. }
+  split; [exact Hi'|].
+  apply roundtrip_parse; [exact Hi'| |].
+  - rewrite He'. change (pm_xlsx m_stored) with false. rewrite no_bad_retarget. exact Hb.
+  - rewrite He', lower_stable_retarget. exact Hl.
+Qed.
+
+(* ... and what the new name is spelled as in that text is read back as the new name (C22, instantiated) *)
+Theorem rename_name_survives (n : text) rest :
+  is_valid_sheet_name n = true -> lex_sheet_prefix_x (quote_name_x n ++ 33 :: rest) = Some (n, rest).
+Proof.
+  intro H. apply sheet_roundtrip_x. intro; subst. discriminate.
+Qed.
